@@ -14,8 +14,8 @@ pub(crate) fn any_array4() -> (Array4, [u8; 16]) {
     let aux_entries: [u32; 4] = kani::any();
     let aux = va::raw_aux(4, &aux_entries);
     kani::assume(va::aux_invariant(&aux));
-    kani::assume(aux.count <= 2);
-    let has_aux = aux.count > 0;
+    kani::assume(va::count(&aux) <= 2);
+    let has_aux = va::count(&aux) > 0;
     let mut a = Array4 {
         lg_config_k: 4,
         bytes: bytes.to_vec().into_boxed_slice(),
@@ -50,7 +50,7 @@ pub(crate) fn any_array4() -> (Array4, [u8; 16]) {
         s += 1;
     }
     let aux_count = match &a.aux_map {
-        Some(m) => m.count,
+        Some(m) => va::count(m),
         None => 0,
     };
     kani::assume(n_tokens == aux_count);
@@ -136,7 +136,7 @@ fn c02_array4_shift() {
     let (mut a, model) = any_array4();
     kani::assume(a.num_at_cur_min == 0);
     let c0 = a.cur_min;
-    let had_aux = a.aux_map.as_ref().map(|m| m.count).unwrap_or(0);
+    let had_aux = a.aux_map.as_ref().map(|m| va::count(m)).unwrap_or(0);
     a.shift_to_bigger_cur_min();
     assert!(a.cur_min == c0 + 1);
     check_view(&a, &model);
@@ -152,7 +152,7 @@ fn c02_array4_shift() {
         }
         s += 1;
     }
-    let have = a.aux_map.as_ref().map(|m| m.count).unwrap_or(0);
+    let have = a.aux_map.as_ref().map(|m| va::count(m)).unwrap_or(0);
     assert!(have == need, "exception table does not hold exactly the registers that need it");
     kani::cover!(had_aux == 2 && have == 1);
     kani::cover!(had_aux == 1 && have == 1);
